@@ -156,7 +156,9 @@ impl<W: Write> Encoder<W> {
 
     /// Encode a CBOR simple value.
     pub fn simple(&mut self, x: u8) -> Result<&mut Self, Error<W::Error>> {
-        if x < 0x14 {
+        // Values below 24 are carried in the initial byte. The two-byte
+        // form must not be used for them (RFC 8949, section 3.3).
+        if x < 0x18 {
             self.put(&[SIMPLE | x])
         } else {
             self.put(&[SIMPLE | 24, x])
